@@ -429,3 +429,24 @@ def _softrm_one(r, m, res):
             res.viol("soft-rm", cfg, "clean", f"noise-free LLRs (magnitude {mag}) of message {gf2.bits(msgs[bad[0]], k)} decoded to {None if got[bad[0]] is None else gf2.bits(got[bad[0]], k)}")
             break
     res.sample({"r": r, "m": m, "codewords": len(cws)})
+
+
+# ----------------------------------------------------------------------------- spelling equivalence of the constructors behind this property
+# (positional / keyword / mixed spellings of one legal call configure the same object; shared helper kmc/spelling.py)
+_cases0, _execute0, _component0 = cases, execute, component_of
+
+
+def cases(tier, seed):  # noqa: F811
+    yield from _cases0(tier, seed)
+    yield f"{PID}|spelling", {"kind": "spelling", "tier": tier}
+
+
+def execute(p, res):  # noqa: F811
+    if p.get("kind") == "spelling":
+        from kmc import spelling
+        return spelling.run(PID, res)
+    return _execute0(p, res)
+
+
+def component_of(p):  # noqa: F811
+    return "spelling" if p.get("kind") == "spelling" else _component0(p)
